@@ -7,6 +7,7 @@ import (
 	"go/types"
 	"math"
 	"math/big"
+	"regexp"
 	"sort"
 	"strings"
 
@@ -31,28 +32,28 @@ type Exec struct {
 	contract *Contract
 	ti       *TypeInfo
 
-	decls     []string          // declarations in order
-	declared  map[string]bool   // symbol -> declared
-	axioms    []*Term           // facts about declared symbols (string literals, globals)
-	heapElem  map[string]types.Type
-	mapValType map[string]*types.Map
-	globalOrder []*Term // global pointers in creation order (deterministic scripts)
+	decls        []string        // declarations in order
+	declared     map[string]bool // symbol -> declared
+	axioms       []*Term         // facts about declared symbols (string literals, globals)
+	heapElem     map[string]types.Type
+	mapValType   map[string]*types.Map
+	globalOrder  []*Term // global pointers in creation order (deterministic scripts)
 	callBindings []Value // captured variables of the closure being called (contractCall)
-	counter   int
-	obls      []*Obligation
-	labelSeen map[string]int
-	assumptions map[string]bool
-	paths     int
-	strLits   map[string]*Term
-	globals   map[*ssa.Global]*Term
-	cellCtr   int
-	noOverflow bool
-	signedWrap bool
-	maxPaths  int
-	block     *BlockSpec
-	oldHeapOf map[*Term]map[string]*Term
-	recFuncs  map[string]*recFuncInfo
-	recOrder  []string
+	counter      int
+	obls         []*Obligation
+	labelSeen    map[string]int
+	assumptions  map[string]bool
+	paths        int
+	strLits      map[string]*Term
+	globals      map[*ssa.Global]*Term
+	cellCtr      int
+	noOverflow   bool
+	signedWrap   bool
+	maxPaths     int
+	block        *BlockSpec
+	oldHeapOf    map[*Term]map[string]*Term
+	recFuncs     map[string]*recFuncInfo
+	recOrder     []string
 }
 
 func NewExec(v *Verifier, fn *ssa.Function, key string, c *Contract) *Exec {
@@ -1129,8 +1130,28 @@ func (x *Exec) substr(st *State, s, lo, hi *Term, rt types.Type) Value {
 		}
 	}
 	t := App("ssub", SStr, s, lo, hi)
-	st.assume(x.ti.WF(t, types.Typ[types.String], nil)...)
+	// (inside a quantified specification the term mentions bound variables and
+	// cannot be assumed about at top level; its length follows from the ssub axiom)
+	if !mentionsBoundVar(t) {
+		st.assume(x.ti.WF(t, types.Typ[types.String], nil)...)
+	}
 	return TV{t, rt}
+}
+
+var boundVarName = regexp.MustCompile(`![bw]\d+$`)
+
+// mentionsBoundVar reports whether t contains a variable bound by a quantifier of
+// the specification compiler (named <id>!b<n>).
+func mentionsBoundVar(t *Term) bool {
+	if len(t.Args) == 0 && len(t.Bound) == 0 {
+		return boundVarName.MatchString(t.Op)
+	}
+	for _, a := range t.Args {
+		if mentionsBoundVar(a) {
+			return true
+		}
+	}
+	return false
 }
 
 // ---------------------------------------------------------------------------
